@@ -382,7 +382,7 @@ func Go(fn func()) {
 	if isDead(t) {
 		return
 	}
-	c := &Task{sim: t.sim, resume: make(chan struct{}), Proc: t.Proc}
+	c := newTask(t.sim, t.Proc)
 	t.sim.startTask(c, fn)
 	submitSpawn(t, c)
 	park(t)
@@ -490,14 +490,27 @@ func slotWake(t *Task) (int64, bool) { return t.wake, t.periodic }
 //go:norace
 func heldCount(t *Task) int32 { return t.held }
 
+// newTask allocates a task. The struct is later written by the scheduler (register) and read by the task
+// itself; all of that happens in norace code so that the harness adds no race report of its own.
+//
+//go:norace
+func newTask(s *Sim, proc int) *Task {
+	t := new(Task)
+	t.sim = s
+	t.resume = make(chan struct{})
+	t.Proc = proc
+	return t
+}
+
 // Spawn creates a task from the scheduler goroutine (world operations).
 func (s *Sim) Spawn(name string, proc int, fn func()) *Task {
-	t := &Task{sim: s, resume: make(chan struct{}), Proc: proc}
+	t := newTask(s, proc)
 	s.register(t, name)
 	s.startTask(t, fn)
 	return t
 }
 
+//go:norace
 func (s *Sim) register(t *Task, name string) {
 	t.ID = s.nextID
 	s.nextID++
